@@ -109,8 +109,8 @@ def parsePolicy' (s : String) : Option (List WPol) :=
     | _ => none
 
 def storeLine (s : S) : String :=
-  let items := s.store.sortedKeys.map fun k =>
-    match s.store.get k with
+  let items := s.core.store.sortedKeys.map fun k =>
+    match s.core.store.get k with
     | some raw =>
       match decodeValue raw with
       | .ok (p, seq) => s!"{hex4 k}:{hexOrDash p}:{seq}"
@@ -119,9 +119,10 @@ def storeLine (s : S) : String :=
   "store " ++ " ".intercalate items
 
 def ctrLine (s : S) : String :=
-  if s.l1.seqClosed then
-    s!"ctr acked={s.acked} received={s.received} completed={s.completed} a1=0 s1=0 a2=0 s2=0 q1=0 q2=0 tx={s.txs.length}" else
-  s!"ctr acked={s.acked} received={s.received} completed={s.completed} a1={s.l1.acceptN} s1={s.l1.submitN} a2={s.l2.acceptN} s2={s.l2.submitN} q1={s.l1.queue.length} q2={s.l2.queue.length} tx={s.txs.length}"
+  let c := s.core
+  if c.l1.seqClosed then
+    s!"ctr acked={c.acked} received={c.received} completed={c.completed} a1=0 s1=0 a2=0 s2=0 q1=0 q2=0 tx={s.txs.length}" else
+  s!"ctr acked={c.acked} received={c.received} completed={c.completed} a1={c.l1.acceptN} s1={c.l1.submitN} a2={c.l2.acceptN} s2={c.l2.submitN} q1={c.l1.queue.length} q2={c.l2.queue.length} tx={s.txs.length}"
 
 /-- after an operation by another actor: a parked reader whose connection got closed runs on -/
 def wakeReader (s : S) : S × List String :=
@@ -239,24 +240,24 @@ def sessStep (s : S) (f : List String) : S × List String :=
   | ["damage", "alter", key, off, val] =>
     match hexNat key, off.toNat?, val.toNat? with
     | some k, some o, some v =>
-      match s.store.get k with
-      | some raw => ({ s with store := s.store.put k (raw.set o (UInt8.ofNat v)) }, [])
+      match s.core.store.get k with
+      | some raw => ({ s with core := { s.core with store := s.core.store.put k (raw.set o (UInt8.ofNat v)) } }, [])
       | none => (s, [])
     | _, _, _ => (s, ["bad-op damage"])
   | ["damage", "trunc", key, len] =>
     match hexNat key, len.toNat? with
     | some k, some n =>
-      match s.store.get k with
-      | some raw => ({ s with store := s.store.put k (raw.take n) }, [])
+      match s.core.store.get k with
+      | some raw => ({ s with core := { s.core with store := s.core.store.put k (raw.take n) } }, [])
       | none => (s, [])
     | _, _ => (s, ["bad-op damage"])
   | ["damage", "rm", key] =>
     match hexNat key with
-    | some k => ({ s with store := s.store.erase k }, [])
+    | some k => ({ s with core := { s.core with store := s.core.store.erase k } }, [])
     | none => (s, ["bad-op damage"])
   | ["damage", "stray", key, h] =>
     match hexNat key, ofHex h with
-    | some k, some v => ({ s with store := s.store.put k v }, [])
+    | some k, some v => ({ s with core := { s.core with store := s.core.store.put k v } }, [])
     | _, _ => (s, ["bad-op damage"])
   | kind :: rest =>
     match parseChunks kind rest with
